@@ -61,6 +61,59 @@ static int mode_points(int npts)
     return 0;
 }
 
+// Translator-independent oracle: -div(alpha grad u) + beta u evaluated by nested 4th-order central differences from the COMPILED exact
+// solution, coefficients and Jacobian functions, against the compiled source term — no Lean term involved, so it still speaks when a
+// formula leaves the translator's grammar
+static int mode_fd(int npts)
+{
+    Rng rng(seed_from_env());
+    for (int p = 0; p < 4; p++) for (int g = 0; g < 3; g++) for (int a = 0; a < 4; a++) for (int b = 0; b < 2; b++) {
+        double Rmax = rng.pick(std::vector<double>{1.3, 1.0, 2.0}), kappa = g == 2 ? rng.uniform(0.1, 0.5) : rng.uniform(0.0, 0.5), delta = g == 2 ? rng.uniform(1.0, 2.0) : rng.uniform(0.0, 0.3);
+        std::vector<std::string> args = {"gmgpolar", "--verbose", "0", "--problem", std::to_string(p), "--geometry", std::to_string(g), "--alpha_coeff", std::to_string(a), "--beta_coeff", std::to_string(b)};
+        char buf[64];
+        snprintf(buf, sizeof buf, "%.17g", Rmax); args.push_back("--Rmax"); args.push_back(buf);
+        snprintf(buf, sizeof buf, "%.17g", kappa); args.push_back("--kappa_eps"); args.push_back(buf);
+        snprintf(buf, sizeof buf, "%.17g", delta); args.push_back("--delta_e"); args.push_back(buf);
+        snprintf(buf, sizeof buf, "%.17g", 0.7081 * Rmax); args.push_back("--alpha_jump"); args.push_back(buf);
+        std::vector<char*> argv;
+        for (auto& s : args) argv.push_back(const_cast<char*>(s.c_str()));
+        GMGPolar gm;
+        try { gm.setParameters((int)argv.size(), argv.data()); }
+        catch (const std::exception& e) { continue; }
+        GMGPolarVerif v(gm);
+        if (!v.exact()) continue;
+        auto u = [&](double r, double t) { return v.exact()->exact_solution(r, t, sin(t), cos(t)); };
+        auto d1 = [&](auto f, double x, double h) { return (-f(x + 2 * h) + 8 * f(x + h) - 8 * f(x - h) + f(x - 2 * h)) / (12 * h); };
+        const double h = 5e-4;
+        auto flux = [&](double r, double t, double& P, double& Q) {
+            double s = sin(t), c = cos(t);
+            double Jrr = v.geo().dFx_dr(r, t, s, c), Jtr = v.geo().dFy_dr(r, t, s, c), Jrt = v.geo().dFx_dt(r, t, s, c), Jtt = v.geo().dFy_dt(r, t, s, c);
+            double det = Jrr * Jtt - Jrt * Jtr;
+            double grr = (Jrt * Jrt + Jtt * Jtt) / (det * det), grt = -(Jrr * Jrt + Jtr * Jtt) / (det * det), gtt = (Jrr * Jrr + Jtr * Jtr) / (det * det);
+            double ur = d1([&](double x) { return u(x, t); }, r, h), ut = d1([&](double y) { return u(r, y); }, t, h);
+            double al = v.coef().alpha(r);
+            P = al * det * (grr * ur + grt * ut);
+            Q = al * det * (grt * ur + gtt * ut);
+        };
+        double worst = 0, scale = 0, wr = 0, wt = 0, wf = 0, wl = 0;
+        for (int q = 0; q < npts; q++) {
+            double r = rng.uniform(0.15, 0.9) * Rmax, t = rng.uniform(0.0, 2 * M_PI), s = sin(t), c = cos(t);
+            double dP = d1([&](double x) { double P, Q; flux(x, t, P, Q); return P; }, r, h);
+            double dQ = d1([&](double y) { double P, Q; flux(r, y, P, Q); return Q; }, t, h);
+            double Jrr = v.geo().dFx_dr(r, t, s, c), Jtr = v.geo().dFy_dr(r, t, s, c), Jrt = v.geo().dFx_dt(r, t, s, c), Jtt = v.geo().dFy_dt(r, t, s, c);
+            double det = Jrr * Jtt - Jrt * Jtr;
+            double lu = -(dP + dQ) / det + v.coef().beta(r) * u(r, t);
+            double f = v.source().rhs_f(r, t, s, c);
+            scale = std::max({scale, std::abs(f), std::abs(lu)});
+            if (std::abs(f - lu) > worst) { worst = std::abs(f - lu); wr = r; wt = t; wf = f; wl = lu; }
+        }
+        printf("FD %d %d %d %d Rmax=%s kappa=%s delta=%s worst=%s scale=%s at_r=%s at_theta=%s shipped=%s finite_difference=%s\n", p, g, a, b, hex(Rmax).c_str(), hex(kappa).c_str(), hex(delta).c_str(), hex(worst).c_str(),
+               hex(scale).c_str(), hex(wr).c_str(), hex(wt).c_str(), hex(wf).c_str(), hex(wl).c_str());
+    }
+    printf("end\n");
+    return 0;
+}
+
 static int mode_culham(int npts)
 {
     Rng rng(seed_from_env());
@@ -88,6 +141,7 @@ int main(int argc, char** argv)
     int n = argc > 2 ? atoi(argv[2]) : 50;
     if (mode == "points") return mode_points(n);
     if (mode == "culham") return mode_culham(n);
+    if (mode == "fd") return mode_fd(n);
     fprintf(stderr, "usage: h_inputfn points|culham n\n");
     return 2;
 }
